@@ -108,7 +108,17 @@ def c11(run, anthem, tier):
     finally:
         shutil.rmtree(base, ignore_errors=True)
 
+def replay(path):
+    import json
+    a = json.load(open(path))["replay"]
+    build_anthem()
+    if "args" not in a:
+        print("replay: re-run ./check for this artefact"); sys.exit(2)
+    print("replay: this artefact names its files relative to a scratch directory that no longer exists; the full CLI layer re-creates them:", a["args"]); sys.exit(2)
+
 def main():
+    if "--replay" in sys.argv:
+        replay(sys.argv[sys.argv.index("--replay") + 1])
     pid = sys.argv[1]
     sys.argv = [sys.argv[0]] + sys.argv[2:]
     tier = tier_from_args()
